@@ -21,7 +21,9 @@ Script entries are (kind, answer):
 """
 import hashlib
 import random as _random
+import signal
 import sys
+import time
 import zlib
 from collections.abc import Sequence as _Sequence
 from contextlib import contextmanager
@@ -50,6 +52,16 @@ class ScriptMismatch(BaseException):
 
 class DrawAfterEnd(BaseException):
     """A draw was requested after the clock had been answered with +inf."""
+
+
+class Runaway(BaseException):
+    """A single simulator call exceeded RUN_GUARD_S of CPU time under the seam
+    (e.g. the scripted clock never reached the code because it draws
+    elsewhere, so the simulated epidemic never ends)."""
+
+
+GUARD = [False]
+RUN_GUARD_S = 30.0
 
 
 class UnsupportedDraw(BaseException):
@@ -121,6 +133,17 @@ class SimRandom(_random.Random):
             raise UnsupportedDraw("getrandbits(%d)" % k)
         v = self.inner.getrandbits(k)
         self._log("g", k, v)
+        return v
+
+    def _randbelow(self, n):
+        """randrange / randint / shuffle / choices(k) funnel here: an integer
+        uniform on range(n) is a choice over range(n)."""
+        if self.mode == SCRIPTED:
+            if n <= 0:
+                raise ValueError("empty range")
+            return self._next("c", range(n))
+        v = self.inner._randbelow(n)
+        self._log("c", "range(%d)" % n, v)
         return v
 
     # --- helpers
@@ -358,6 +381,18 @@ class _Null(object):
 _DEVNULL = _Null()
 
 
+BYPASSED = [0]
+
+
+def _np_state():
+    try:
+        import numpy as _np
+        st = _np.random.get_state()
+        return (st[2], st[3], st[4], int(st[1][0]), int(st[1][-1]))
+    except Exception:
+        return None
+
+
 class RunResult(object):
     __slots__ = ("status", "value", "exc", "pending", "next_clock", "log",
                  "sim")
@@ -382,10 +417,30 @@ def run_under(sim, fn, *args, **kwargs):
     res.sim = sim
     old_out = sys.stdout
     sys.stdout = _DEVNULL       # the code under test prints notes/warnings
+    real = isinstance(sim, RealSim)
+    if not real:
+        # seam-bypass detector: if the code under test reaches the real global
+        # generators (e.g. after a refactor to `from random import random`),
+        # the run is not under the harness's control and must not be judged
+        g0 = _random.getstate()
+        n0 = _np_state()
+    guard = False
+    if not real:
+        try:
+            guard = callable(signal.getsignal(signal.SIGVTALRM))
+        except Exception:
+            guard = False
+    if guard:
+        rem = signal.getitimer(signal.ITIMER_VIRTUAL)[0]
+        c0 = time.process_time()
+        signal.setitimer(signal.ITIMER_VIRTUAL, min(RUN_GUARD_S, rem) if rem > 0 else RUN_GUARD_S)
+        GUARD[0] = True
     try:
         with installed(sim):
             res.value = fn(*args, **kwargs)
         res.status = "done"
+    except Runaway:
+        res.status = "runaway"
     except ScriptExhausted:
         res.status = "pending"
         res.pending = sim.pending
@@ -405,6 +460,13 @@ def run_under(sim, fn, *args, **kwargs):
         res.exc = e
     finally:
         sys.stdout = old_out
+        if guard:
+            GUARD[0] = False
+            used = time.process_time() - c0
+            signal.setitimer(signal.ITIMER_VIRTUAL, max(0.05, rem - used) if rem > 0 else 0)
+    if not real and res.status in ("done", "exc", "runaway") and (_random.getstate() != g0 or _np_state() != n0):
+        res.status = "bypassed"
+        BYPASSED[0] += 1
     res.next_clock = sim.next_clock
     res.log = sim.log
     return res
